@@ -559,7 +559,6 @@ package decoder
 //@ spec rowOK16(d, k, j) := j < nfields(d) && bit(j, wordAt(ptrOf(d.keyBitmapUint16) + 2 * k, 2)) ==> k / 256 < d.sortedFieldSets[j].keyLen
 //@ spec wfRows16(d) := forall k :: 0 <= k && k < 256 * len(d.keyBitmapUint16) ==> rowOK16(d, k, 0) && rowOK16(d, k, 1) && rowOK16(d, k, 2) && rowOK16(d, k, 3) && rowOK16(d, k, 4) && rowOK16(d, k, 5) && rowOK16(d, k, 6) && rowOK16(d, k, 7) && rowOK16(d, k, 8) && rowOK16(d, k, 9) && rowOK16(d, k, 10) && rowOK16(d, k, 11) && rowOK16(d, k, 12) && rowOK16(d, k, 13) && rowOK16(d, k, 14) && rowOK16(d, k, 15)
 //@ spec curAll16(d, cb, ki) := curOK(d, cb, ki, 0) && curOK(d, cb, ki, 1) && curOK(d, cb, ki, 2) && curOK(d, cb, ki, 3) && curOK(d, cb, ki, 4) && curOK(d, cb, ki, 5) && curOK(d, cb, ki, 6) && curOK(d, cb, ki, 7) && curOK(d, cb, ki, 8) && curOK(d, cb, ki, 9) && curOK(d, cb, ki, 10) && curOK(d, cb, ki, 11) && curOK(d, cb, ki, 12) && curOK(d, cb, ki, 13) && curOK(d, cb, ki, 14) && curOK(d, cb, ki, 15)
-//@ tablelemma[C15,C06] largeToSmallTable(j, v) := v == ((j >= 65 && j <= 90) ? j + 32 : j)
 
 // Position contract of the escape helpers: on success c is the index of the LAST byte of the escape sequence
 // (the callers advance once more), it stays inside the buffer, and an unknown escape character is an error.
